@@ -9,6 +9,7 @@ import (
 	"net"
 	"sync"
 	"time"
+	"verif/mc/peek"
 
 	golog "github.com/fatedier/golib/log"
 	"github.com/samber/lo"
@@ -128,7 +129,17 @@ func StartClient(s *Server, user string, proxies []v1.ProxyConfigurer, visitors 
 	return c, nil
 }
 
-func (c *Client) Close() { c.Svc.Close() }
+// Close stops the client. Service.Close must not be called before Run has initialised the service (it calls a
+// cancel function that Run installs), so wait for that first.
+func (c *Client) Close() {
+	for i := 0; i < 400 && peek.F(c.Svc, "cancel").IsNil(); i++ {
+		time.Sleep(5 * time.Millisecond)
+	}
+	if peek.F(c.Svc, "cancel").IsNil() {
+		return
+	}
+	c.Svc.Close()
+}
 
 // WaitRunning polls until the named proxies are running or the timeout passes.
 func (c *Client) WaitRunning(timeout time.Duration, names ...string) bool {
